@@ -263,6 +263,28 @@ Proof.
 Qed.
 
 Definition is_op7 (h : hop) : bool := match h with HObtain | HRenew _ | HManage => true | _ => false end.
+(** * forced replacement of a revoked certificate: what the quarantine of the key can leave behind *)
+Inductive quar (st : storage) (i : nat) (d : N) : storage -> Prop :=
+| q_none : quar st i d st
+| q_del : quar st i d (sdel st (i, d, FKey))
+| q_put v : quar st i d (sput st (i, d, FComp) v)
+| q_put_del v : quar st i d (sdel (sput st (i, d, FComp) v) (i, d, FKey)).
+Definition qkeeps (i : nat) (d : N) (c c1 : core) : Prop :=
+  k_ocsp c1 = k_ocsp c /\ k_nkey c1 = k_nkey c /\ k_nser c1 = k_nser c /\ quar (k_st c) i d (k_st c1).
+Lemma qkeeps_refl i d c : qkeeps i d c c.
+Proof. repeat split. constructor. Qed.
+Lemma move_compromised_effect pl i d w :
+  qkeeps i d (w_core w) (w_core (snd (catch (move_compromised pl i d) w))) /\
+  fst (catch (move_compromised pl i d) w) <> Fail EOther.
+Proof.
+  unfold qkeeps, move_compromised, load, store, delete, prim, bind, catch, ret, fail. cbn.
+  repeat match goal with
+         | |- context [if ?b then _ else _] => destruct b; cbn
+         | |- context [match sget ?s ?k with _ => _ end] => destruct (sget s k); cbn
+         end;
+    (split; [repeat split; try reflexivity; constructor | discriminate]).
+Qed.
+
 Section Gen.
   Variable pl : plan.
   Variable T : storage -> nat -> N -> keyid -> cert -> list N -> storage -> Prop.
@@ -431,6 +453,57 @@ Proof.
     destruct (manage pl cfg sp orc w) as [[mc|e|] w1]; cbn [fst snd]; auto.
 Qed.
 
+
+  (** ** with revocations pending: manage may first quarantine the key (forceRenew) *)
+  Definition eff7r_g (cfg : config) (sp : subject) (c c' : core) : Prop :=
+    exists c1 q, qkeeps q (s_save sp) c c1 /\ (eff7_g cfg sp c1 c' \/ eff7_g cfg (canon sp) c1 c').
+  Lemma eff7r_of_eff7 cfg sp c c' : eff7_g cfg sp c c' -> eff7r_g cfg sp c c'.
+  Proof. intros H. exists c, 0%nat. split; [apply qkeeps_refl | left; exact H]. Qed.
+  Lemma eff7r_of_eff7c cfg sp c c' : eff7_g cfg (canon sp) c c' -> eff7r_g cfg sp c c'.
+  Proof. intros H. exists c, 0%nat. split; [apply qkeeps_refl | right; exact H]. Qed.
+
+  Lemma then_load_effect {A} cfg sp0 d (m : M A) :
+    spec7_g cfg sp0 m -> spec7_g cfg sp0 (m ;;; load_managed pl cfg d).
+  Proof. intros H. apply spec7_bind_r_g; [exact H | intros _; apply pres_ro, ro_load_managed]. Qed.
+
+  Lemma manage_effect_rev_g cfg sp orc w :
+    eff7r_g cfg sp (w_core w) (w_core (snd (manage pl cfg sp orc w))).
+  Proof.
+    unfold manage. rewrite bind_run. unfold catch at 1.
+    generalize (ro_load_managed pl cfg (s_load sp) w).
+    destruct (load_managed pl cfg (s_load sp) w) as [[mc|e|] w1]; cbn [fst snd]; intros HR;
+      try solve [apply eff7r_of_eff7; left; apply keeps_eq; exact HR].
+    - destruct (negb (is_expired (m_c mc)) && _).
+      + unfold force_renew. rewrite <- HR. destruct (m_rev mc) as [[|]|].
+        * (* key compromise: quarantine, then obtain under the canonical name *)
+          rewrite bind_run. rewrite bind_run.
+          destruct (move_compromised_effect pl (m_i mc) (s_save sp) w1) as [HQ _].
+          destruct (catch (move_compromised pl (m_i mc) (s_save sp)) w1) as [[u|e|] w2]; cbn [fst snd] in *.
+          -- exists (w_core w2), (m_i mc). split; [exact HQ|]. right.
+             apply (then_load_effect cfg (canon sp) (s_save sp) (obtain pl cfg (canon sp) orc)). apply obtain_effect_g.
+          -- exists (w_core w2), (m_i mc). split; [exact HQ|]. left. left. apply keeps_refl.
+          -- exists (w_core w2), (m_i mc). split; [exact HQ|]. left. left. apply keeps_refl.
+        * apply eff7r_of_eff7c.
+          apply (then_load_effect cfg (canon sp) (s_save sp) (renew pl cfg (canon sp) orc true)). apply renew_effect_g.
+        * apply eff7r_of_eff7c.
+          apply (then_load_effect cfg (canon sp) (s_save sp) (renew pl cfg (canon sp) orc true)). apply renew_effect_g.
+      + destruct (is_due (m_c mc)); [|apply eff7r_of_eff7; left; apply keeps_eq; exact HR].
+        rewrite <- HR. apply eff7r_of_eff7.
+        apply (then_load_effect cfg sp (s_save sp) (renew pl cfg sp orc false)). apply renew_effect_g.
+    - destruct e; try solve [apply eff7r_of_eff7; left; apply keeps_eq; exact HR].
+      rewrite <- HR. apply eff7r_of_eff7.
+      apply (then_load_effect cfg sp (s_load sp) (obtain pl cfg sp orc)). apply obtain_effect_g.
+  Qed.
+
+  Lemma faulted_effect_rev_g cfg sp orc h w :
+    is_op7 h = true -> eff7r_g cfg sp (w_core w) (w_core (snd (run_hop pl cfg sp orc h w))).
+  Proof.
+    intros Hop. destruct h as [|f| |i kc|]; try discriminate; cbn [run_hop].
+    - apply eff7r_of_eff7. apply (spec7_bind_r_g cfg sp (obtain pl cfg sp orc)); [apply obtain_effect_g | intros; apply pres_ro, ro_ret].
+    - apply eff7r_of_eff7. apply (spec7_bind_r_g cfg sp (renew pl cfg sp orc f)); [apply renew_effect_g | intros; apply pres_ro, ro_ret].
+    - rewrite bind_run. generalize (manage_effect_rev_g cfg sp orc w).
+      destruct (manage pl cfg sp orc w) as [[mc|e|] w1]; cbn [fst snd]; auto.
+  Qed.
 End Gen.
 
 (** ** every plan: the seven torn states *)
@@ -624,6 +697,75 @@ Proof.
   right. repeat split; auto. exists i, k, x. repeat split; auto. apply torn_safe_torn, HT.
 Qed.
 
+
+(** * pending revocations: the quarantine never creates a bundle, so the analysis carries over *)
+Definition eff7r := eff7r_g torn.
+Lemma faulted_effect_rev pl cfg sp orc h w :
+  is_op7 h = true -> eff7r cfg sp (w_core w) (w_core (snd (run_hop pl cfg sp orc h w))).
+Proof. apply (faulted_effect_rev_g pl torn (save_effect pl)). Qed.
+Lemma faulted_effect_rev_calm pl cfg sp orc h w :
+  calm pl -> is_op7 h = true -> eff7r_g torn_safe cfg sp (w_core w) (w_core (snd (run_hop pl cfg sp orc h w))).
+Proof. intros HC. apply (faulted_effect_rev_g pl torn_safe (save_effect_calm pl HC)). Qed.
+
+Lemma quar_sget st q d st1 j d' kd :
+  quar st q d st1 -> kd <> FComp -> sget st1 (j, d', kd) = Some (match sget st1 (j, d', kd) with Some v => v | None => VKey 0 end) ->
+  sget st (j, d', kd) = sget st1 (j, d', kd).
+Proof.
+  intros HQ Hk. destruct HQ; rewrite ?sget_sdel, ?sget_sput, ?fkey_eqb_dir; try reflexivity;
+    destruct kd; try contradiction; cbn; rewrite ?andb_false_r, ?andb_true_r; try reflexivity;
+    destruct (same_dir q d j d'); cbn; intros H; try discriminate; reflexivity.
+Qed.
+Lemma quar_bundle st q d st1 j d' b : quar st q d st1 -> bundle_at st1 j d' = Some b -> bundle_at st j d' = Some b.
+Proof.
+  intros HQ. unfold bundle_at, dir_key, dir_crt, dir_meta.
+  destruct (sget st1 (j, d', FKey)) as [[k| |]|] eqn:EK; try discriminate.
+  destruct (sget st1 (j, d', FCrt)) as [[|x|]|] eqn:EC; try discriminate.
+  destruct (sget st1 (j, d', FMeta)) as [[| |m]|] eqn:EM; try discriminate.
+  rewrite (quar_sget _ _ _ _ j d' FKey HQ), (quar_sget _ _ _ _ j d' FCrt HQ), (quar_sget _ _ _ _ j d' FMeta HQ);
+    rewrite ?EK, ?EC, ?EM; try reflexivity; try discriminate. auto.
+Qed.
+Lemma quar_crt_meta st q d st1 j d' :
+  quar st q d st1 -> dir_crt st1 j d' = dir_crt st j d' /\ dir_meta st1 j d' = dir_meta st j d'.
+Proof.
+  intros HQ. unfold dir_crt, dir_meta.
+  destruct HQ; rewrite ?sget_sdel, ?sget_sput, ?fkey_eqb_dir; cbn; rewrite ?andb_false_r; auto.
+Qed.
+
+(** stuck, with or without pending revocations: still only "a newly stored key next to an older
+    certificate for a different key" - the storage is the one before the operation, possibly after the
+    quarantine of a compromised key, plus the Store of the new .key *)
+Lemma stuck_char_rev cfg sp c0 c' :
+  (forall i b, In i (issuers cfg) -> bundle_at (k_st c0) i (s_save sp) = Some b -> matching b = true) ->
+  eff7r cfg sp c0 c' -> stuck (k_st c') cfg (s_save sp) = true ->
+  exists st1 q i k x m, quar (k_st c0) q (s_save sp) st1 /\ In i (issuers cfg) /\
+    dir_crt (k_st c0) i (s_save sp) = Some x /\ dir_meta (k_st c0) i (s_save sp) = Some m /\ c_pub x <> k /\
+    k_st c' = sput st1 (i, s_save sp, FKey) (VKey k).
+Proof.
+  intros HG (c1 & q & (_ & _ & _ & HQ) & HE) HS.
+  assert (HG1 : forall i b, In i (issuers cfg) -> bundle_at (k_st c1) i (s_save sp) = Some b -> matching b = true).
+  { intros i b Hi Hb. apply (HG i b Hi). eapply quar_bundle; eauto. }
+  assert (R : exists i k x m, In i (issuers cfg) /\ dir_crt (k_st c1) i (s_save sp) = Some x /\
+              dir_meta (k_st c1) i (s_save sp) = Some m /\ c_pub x <> k /\ k_st c' = sput (k_st c1) (i, s_save sp, FKey) (VKey k)).
+  { destruct HE as [HE|HE].
+    - destruct (stuck_char cfg sp c1 c' HG1 HE HS) as (i & k & x & m & A & _ & B & C & D & E). exists i, k, x, m. auto.
+    - destruct (stuck_char cfg (canon sp) c1 c' HG1 HE HS) as (i & k & x & m & A & _ & B & C & D & E). exists i, k, x, m. auto. }
+  destruct R as (i & k & x & m & A & B & C & D & E).
+  destruct (quar_crt_meta _ _ _ _ i (s_save sp) HQ) as [EC EM]. rewrite EC in B. rewrite EM in C.
+  exists (k_st c1), q, i, k, x, m. auto 10.
+Qed.
+
+Lemma never_stuck_calm_rev cfg sp c0 c' :
+  (forall i b, In i (issuers cfg) -> bundle_at (k_st c0) i (s_save sp) = Some b -> matching b = true) ->
+  eff7r_g torn_safe cfg sp c0 c' -> stuck (k_st c') cfg (s_save sp) = false.
+Proof.
+  intros HG (c1 & q & (_ & _ & _ & HQ) & HE).
+  assert (HG1 : forall i b, In i (issuers cfg) -> bundle_at (k_st c1) i (s_save sp) = Some b -> matching b = true).
+  { intros i b Hi Hb. apply (HG i b Hi). eapply quar_bundle; eauto. }
+  destruct HE as [HE|HE].
+  - apply (never_stuck_calm cfg sp c1 c' HG1 HE).
+  - apply (never_stuck_calm cfg (canon sp) c1 c' HG1 HE).
+Qed.
+
 (** typedness and subject fields survive every torn save *)
 Lemma torn_typed st i d k x m st' : typed st -> torn st i d k x m st' -> typed st'.
 Proof.
@@ -691,6 +833,17 @@ Lemma recoverable_after_storage_errors pl cfg sp orc h orc_r w0 :
 Proof.
   intros HC I HO HCan Hn Hop w1 HU. apply (recoverable_after_fault pl cfg sp orc h orc_r w0); auto.
   apply calm_never_stuck; assumption.
+Qed.
+
+
+Lemma calm_never_stuck_rev pl cfg sp orc h w0 :
+  calm pl -> Inv6 cfg sp (w_core w0) -> is_op7 h = true ->
+  stuck (w_st (snd (run_hop pl cfg sp orc h w0))) cfg (s_save sp) = false.
+Proof.
+  intros HC I Hop. apply (never_stuck_calm_rev cfg sp (w_core w0)).
+  - intros i [[[j k] x] m] Hi Hb. destruct (inv_bundle_good _ _ _ _ _ _ _ _ _ I Hb) as (_ & _ & Hp & _).
+    cbn. apply N.eqb_eq, Hp.
+  - apply faulted_effect_rev_calm; assumption.
 Qed.
 
 (** helpers to establish the hypotheses on concrete storages *)
